@@ -25,6 +25,7 @@ type CEnv struct {
 	atBlock   *ssa.BasicBlock
 	selfPath  string
 	depth     int
+	cells     map[string]*Val // captured variables of a closure callee: name -> pointer to the cell
 }
 
 func (fg *FnGen) env(st, old *State, vars map[string]*Val) *CEnv {
@@ -492,6 +493,9 @@ func quantCarriers(body CExpr, v string) []CExpr {
 func (fg *FnGen) evalIdent(name string, env *CEnv) *Val {
 	if v, ok := env.vars[name]; ok {
 		return v
+	}
+	if c, ok := env.cells[name]; ok {
+		return fg.loadIn(env.st, fg.derefQuiet(c))
 	}
 	switch name {
 	case "zeroarray":
@@ -1012,6 +1016,16 @@ func (fg *FnGen) evalCall(x *CCall, env *CEnv) *Val {
 		// dynamic type tag of an interface value: tag(x) == typeid(T) is written istype(x, "pkg.T")
 		v := fg.evalC(x.Args[0], env)
 		return &Val{T: tInt, L: []Term{v.L[0]}}
+	case "visited":
+		// visited(n, k): key k has been produced by the n-th range-over-map statement of the function
+		n, ok := x.Args[0].(*CInt)
+		if !ok || len(x.Args) != 2 {
+			panic(unsupported("visited(n, key) needs a literal ordinal"))
+		}
+		comp := "ghost:$vis!" + n.Val
+		fg.compSort(comp, ArrSort(SBool))
+		key := fg.mapKey(fg.evalC(x.Args[1], env))
+		return &Val{T: tBool, L: []Term{Select(fg.get(env.st, comp, ArrSort(SBool)), key)}}
 	case "payload":
 		// boxed value of an interface holding a single-leaf value (ints, pointers)
 		v := fg.evalC(x.Args[0], env)
